@@ -6,7 +6,7 @@ use std::sync::Mutex;
 use emit::span::{SpanCtxt, SpanId, TraceId};
 use emit::Frame;
 
-use crate::exec::{alternating, block_on, join, yield_now, BoxFut};
+use crate::exec::{alternating, block_on, catch_fut, catch_planned, join, planned_panic, yield_now, BoxFut};
 use crate::rt::Rt;
 use crate::tree::{Form, IdForm, Incoming, PItem, PNode};
 
@@ -63,9 +63,11 @@ fn span_manual_call(env: &Env, node: &PNode) {
 }
 
 fn span_manual_enter(env: &Env, node: &PNode) {
-    let (mut guard, mut frame) = emit::new_span!(rt: env.rt, mdl: emit::Path::new_raw(node.mdl), "manual_enter");
+    let (guard, mut frame) = emit::new_span!(rt: env.rt, mdl: emit::Path::new_raw(node.mdl), "manual_enter");
     {
         let _entered = frame.enter();
+        // declared after the enter guard: an unwind drops (= completes) it while the frame is still entered
+        let mut guard = guard;
         guard.start();
         check(env, node.pre);
         run_sync(env, &node.items);
@@ -153,11 +155,13 @@ fn span_handoff_call(env: &Env, node: &PNode) {
         s.spawn(move || {
             vcore::catch(move || {
                 // entering the carried frame is the first thing this thread does with the context
-                frame.call(move || {
-                    guard.start();
-                    check(env, node.pre);
-                    run_sync(env, &node.items);
-                    guard.complete();
+                let _ = catch_planned(|| {
+                    frame.call(move || {
+                        guard.start();
+                        check(env, node.pre);
+                        run_sync(env, &node.items);
+                        guard.complete();
+                    })
                 });
                 far_side_goes_on(env, node);
             })
@@ -186,7 +190,7 @@ fn span_handoff_in_fn(env: &Env, node: &PNode) {
     let r = std::thread::scope(|s| {
         s.spawn(move || {
             vcore::catch(move || {
-                on_thread();
+                let _ = catch_planned(on_thread);
                 far_side_goes_on(env, node);
             })
         })
@@ -200,12 +204,12 @@ fn span_handoff_enter_back(env: &Env, node: &PNode) {
     let r = std::thread::scope(|s| {
         s.spawn(move || {
             let r = vcore::catch(|| {
-                {
+                let _ = catch_planned(|| {
                     let _entered = frame.enter();
                     guard.start();
                     check(env, node.pre);
                     run_sync(env, &node.items);
-                }
+                });
                 far_side_goes_on(env, node);
             });
             (r, guard, frame)
@@ -278,7 +282,14 @@ pub fn run_sync(env: &Env, items: &[PItem]) {
         match it {
             PItem::Span(n) => {
                 span_sync(env, n);
-                check(env, n.post);
+                if let Some(post) = n.post {
+                    check(env, post);
+                }
+            }
+            PItem::Panic => planned_panic(),
+            PItem::Catch { items, post } => {
+                let _ = catch_planned(|| run_sync(env, items));
+                check(env, *post);
             }
             PItem::Event { id } => event(env, *id),
             PItem::Check { id } => check(env, *id),
@@ -301,7 +312,14 @@ pub fn run_async<'a>(env: &'a Env<'a>, items: &'a [PItem]) -> BoxFut<'a> {
             match it {
                 PItem::Span(n) => {
                     span_async(env, n).await;
-                    check(env, n.post);
+                    if let Some(post) = n.post {
+                        check(env, post);
+                    }
+                }
+                PItem::Panic => planned_panic(),
+                PItem::Catch { items, post } => {
+                    catch_fut(run_async(env, items)).await;
+                    check(env, *post);
                 }
                 PItem::Event { id } => event(env, *id),
                 PItem::Check { id } => check(env, *id),
@@ -345,7 +363,8 @@ fn hop(env: &Env, carry: bool, fut: bool, items: &[PItem], pre: usize, end: usiz
                     check(env, pre);
                     run_sync(env, items)
                 };
-                match (frame, fut) {
+                // the body may panic (planned): this thread catches that and goes on
+                let _ = catch_planned(|| match (frame, fut) {
                     (Some(f), false) => f.call(body_sync),
                     (Some(f), true) => block_on(f.in_future(async {
                         check(env, pre);
@@ -356,7 +375,7 @@ fn hop(env: &Env, carry: bool, fut: bool, items: &[PItem], pre: usize, end: usiz
                         check(env, pre);
                         run_async(env, items).await
                     }),
-                }
+                });
                 // the thread goes on as a worker: nothing of the carried frame may still be ambient
                 check(env, end);
                 run_sync(env, after);
